@@ -1,7 +1,7 @@
 import Thanos.Model.Sharding
 /-
-  C44 — specification-level evaluation of a PromQL fragment at one timestamp (the engine is
-  third-party): selectors, pointwise functions / filters, aggregations `by` / `without` of any
+  C44 — specification-level evaluation of a PromQL fragment over time-indexed inputs (the engine
+  is third-party): selectors, pointwise functions / filters, aggregations `by` / `without` of any
   nesting depth, with any aggregation operator, and vector matching `on` / `ignoring`
   (one-to-one arithmetic, comparison filters, `and`, `unless`, `or`).  Values are `Int` (the harness uses
   integer-valued samples); an aggregation operator is a function of the group's member series (labels
@@ -30,20 +30,33 @@ inductive VExpr where
   | binL (sig : Labels → Labels) (f : Series → Option Series → Option Series) (l r : VExpr)
   /-- concatenation (the two halves of `or`) -/
   | append (l r : VExpr)
+  /-- a function over time — a range function over a matrix selector (`rate(m[5m])`) or over a
+      subquery (`max_over_time((e)[1h:1m])`): the inner expression is evaluated at the timestamps
+      `ts t`, the results are grouped per series (`key` = identity, or dropping the metric name)
+      and every group is reduced by `op` -/
+  | overTime (ts : Int → List Int) (key : Labels → Labels) (op : List Series → Int) (e : VExpr)
 
 def groupAgg (key : Labels → Labels) (op : List Series → Int) (v : Vec) : Vec :=
   (nub (v.map fun s => key s.1)).map fun k => (k, op (v.filter fun s => key s.1 = k))
 
-def eval : VExpr → Vec → Vec
-  | .sel p, s => s.filter fun x => p x.1
-  | .fn g e, s => (eval e s).filterMap fun x => g x.1 x.2
-  | .agg key op e, s => groupAgg key op (eval e s)
-  | .binL sig f l r, s =>
-    (eval l s).filterMap fun x => f x ((eval r s).find? fun y => sig y.1 = sig x.1)
-  | .append l r, s => eval l s ++ eval r s
+/-- the input: the series (with their sample) at every evaluation timestamp -/
+abbrev TVec := Int → Vec
+
+/-- evaluation at timestamp `t` -/
+def eval : VExpr → TVec → Int → Vec
+  | .sel p, s, t => (s t).filter fun x => p x.1
+  | .fn g e, s, t => (eval e s t).filterMap fun x => g x.1 x.2
+  | .agg key op e, s, t => groupAgg key op (eval e s t)
+  | .binL sig f l r, s, t =>
+    (eval l s t).filterMap fun x => f x ((eval r s t).find? fun y => sig y.1 = sig x.1)
+  | .append l r, s, t => eval l s t ++ eval r s t
+  | .overTime ts key op e, s, t => groupAgg key op ((ts t).flatMap fun t' => eval e s t')
 
 /-- the series a store hands to shard `i` -/
 def shardOf (sh : Labels → Nat) (i : Nat) (v : Vec) : Vec := v.filter fun s => sh s.1 = i
+
+/-- … at every timestamp -/
+def shardOfT (sh : Labels → Nat) (i : Nat) (s : TVec) : TVec := fun t => shardOf sh i (s t)
 
 /-- grouping key of `op by (L) (…)`: the labels named in `L` -/
 def keyBy (L : List String) (ls : Labels) : Labels := ls.filter fun l => L.contains l.1
